@@ -344,7 +344,7 @@ class Ctx:
 
 
 def load_known(pid):
-    p = os.path.join(VERIF, "known_findings.jsonl")
+    p = os.path.join(VERIF, "known", pid + ".jsonl")
     out = []
     if os.path.exists(p):
         for line in open(p):
